@@ -158,7 +158,7 @@ class Machine:
     def descr_kind(d: str) -> str:
         for k, pat in (("asobj", "as_obj"), ("duplicate", ".duplicate()"), ("dcreplace", "dataclasses.replace"),
                        ("replace-raises", "raises"), ("replace", ".replace("), ("detach_self", ".detach_self()"),
-                       ("detach", ".detach()"), ("del", "del v"), ("construct", "(...)")):
+                       ("detach", ".detach()"), ("del", "del v"), ("construct", "(...)"), ("readonly", "read-only")):
             if pat in d:
                 return k
         return "alias"
@@ -455,6 +455,40 @@ class Machine:
         del x, live
         return ([A("alias"), v, t], [A("ok"), t, None], f"v{v} = #{t}")
 
+    def op_readonly(self):
+        """library calls that must not affect the registry nor keep anything alive"""
+        if not self.vars:
+            return self.op_construct()
+        from pyoak.match.xpath import ASTXpath
+        v = self.rng.choice(sorted(self.vars))
+        x = self.vars[v]
+        t = self.tok(x)
+        k = self.rng.randrange(5)
+        if k == 0:
+            tr = x.to_tree()
+            for n in [x] + [c for c, *_ in zoo.positions(x)][:5]:
+                tr.get_parent_info(n)
+            del tr
+            what = "to_tree"
+        elif k == 1:
+            xp = ASTXpath(self.rng.choice(["//Leaf", "//Expr", "/Tup//Leaf"]))
+            found = list(xp.findall(x))
+            for n in found[:3]:
+                xp.match(x, n)
+            del found
+            what = "xpath"
+        elif k == 2:
+            list(x.dfs()); list(x.bfs()); list(x.gather(zoo.Leaf)); x.children
+            what = "traverse"
+        elif k == 3:
+            x.as_dict(); x.to_json(); hash(x); (x == x); x.__rich__()
+            what = "serialize"
+        else:
+            x.is_equal(x); x.to_properties_dict(); list(x.get_properties())
+            what = "accessors"
+        del x
+        return ([A("alias"), v, t], [A("ok"), t, None], f"read-only {what} on #{t}")
+
     def op_drop(self):
         if not self.vars:
             return self.op_construct()
@@ -493,8 +527,10 @@ class Machine:
             r = self.op_serialize()
         elif k < 0.87:
             r = self.op_asobj()
-        elif k < 0.92:
+        elif k < 0.90:
             r = self.op_alias()
+        elif k < 0.94:
+            r = self.op_readonly()
         else:
             r = self.op_drop()
         # the op methods have returned: none of their locals holds a node any more
